@@ -338,7 +338,7 @@ func genCase(t *rapid.T) Case {
 		c.Entry = "Context." + ctxMethodName[ctxOps[gen.Pick(t, len(ctxOps), "cop")]]
 	}
 	costly := strings.HasSuffix(c.Entry, ".Cbrt") || strings.HasSuffix(c.Entry, ".Exp") || strings.HasSuffix(c.Entry, ".Ln") || strings.HasSuffix(c.Entry, ".Log10") || strings.HasSuffix(c.Entry, ".Pow")
-	maxP := 60
+	maxP := 400
 	if costly {
 		maxP = 16
 	}
@@ -386,6 +386,8 @@ func genCase(t *rapid.T) Case {
 	c.E = int32(rapid.IntRange(-gen.Limit-5, gen.Limit+5).Draw(t, "e"))
 	if gen.Pick(t, 2, "esmall") == 0 {
 		c.E = int32(rapid.IntRange(-40, 40).Draw(t, "esm"))
+	} else if gen.Pick(t, 10, "eext") == 0 { // the ends of the int32 argument range
+		c.E = []int32{2147483647, -2147483648, 2147483646, -2147483647, 2147383647, -2147383648, 1073741824}[gen.Pick(t, 7, "eextv")] - int32(rapid.IntRange(0, 3).Draw(t, "eexto"))*int32(1-2*gen.Pick(t, 2, "eexts"))
 	}
 	switch gen.Pick(t, 4, "sk") {
 	case 0:
